@@ -219,7 +219,13 @@ func (e *Engine) doCall(st *State, call *ssa.CallCommon, fnv Val, args []Val, re
 		defer func() {
 			// "after" hooks run when the call's effect has been applied (contract or havoc; not for inlined callees)
 			if len(st.frames) == 1 && !st.dead {
+				e.hookArgs = args
+				e.hookRes = nil
+				if rv, ok := fr.regs[retTo]; ok {
+					e.hookRes = &rv
+				}
 				e.runHooks(st, fr, hookInstr, key, "after")
+				e.hookRes = nil
 			}
 		}()
 	}
@@ -750,7 +756,7 @@ func (e *Engine) contractEnv(st *State, c *FuncContract, sig *types.Signature, a
 	return env
 }
 
-func (e *Engine) doGo(st *State, call *ssa.CallCommon, fnv Val, args []Val, pos token.Pos) {
+func (e *Engine) doGo(st *State, call *ssa.CallCommon, fnv Val, args []Val, pos token.Pos, goInstr ssa.Instruction) {
 	// precondition of the spawned function is an obligation; effects are not sequenced.
 	var key string
 	var sig *types.Signature
@@ -767,6 +773,10 @@ func (e *Engine) doGo(st *State, call *ssa.CallCommon, fnv Val, args []Val, pos 
 		}
 		key = keyOf(callee)
 		sig = call.Signature()
+	}
+	if goInstr != nil && len(st.frames) == 1 {
+		e.hookArgs = args
+		e.runHooks(st, st.top(), goInstr, "go "+key, "before")
 	}
 	for _, a := range args {
 		st.escape(a)
@@ -1414,6 +1424,17 @@ func (e *Engine) runHooks(st *State, fr *Frame, instr ssa.Instruction, key, when
 		env := e.frameEnv(st, fr)
 		for i, a := range e.hookArgs {
 			env.vars[fmt.Sprintf("arg%d", i)] = a
+		}
+		if when == "after" && e.hookRes != nil {
+			// the call's results: res (single result) or res0, res1, ...
+			if e.hookRes.K == KTuple {
+				for i, f := range e.hookRes.F {
+					env.vars[fmt.Sprintf("res%d", i)] = f
+				}
+			} else if e.hookRes.K != KUnit {
+				env.vars["res"] = *e.hookRes
+				env.vars["res0"] = *e.hookRes
+			}
 		}
 		switch h.Kind {
 		case "snap":
